@@ -26,6 +26,8 @@ analysis procedures.
 
 .. moduleauthor:: Tom Dimiduk <tdimiduk@physics.harvard.edu>
 """
+import inspect
+
 import numpy as np
 import yaml
 
@@ -71,12 +73,19 @@ class HoloPyObject(Serializable):
         return dict(self._iteritems())
 
     def _iteritems(self):
+        defaults = {name: par.default for name, par in
+                    inspect.signature(self.__init__).parameters.items()}
         for var in self.__init__.__code__.co_varnames[1:]:
             if getattr(self, var, None) is not None:
                 item = getattr(self, var)
                 if isinstance(item, np.ndarray) and item.ndim == 1:
                     item = list(item)
                 yield var, item
+            elif (hasattr(self, var) and defaults.get(var) is not None
+                  and defaults.get(var) is not inspect.Parameter.empty):
+                # an explicit None for an argument whose default is something
+                # else (e.g. parallel=None) must survive saving
+                yield var, None
 
     @classmethod
     def to_yaml(cls, dumper, data):
